@@ -780,6 +780,42 @@ def check_canon(res, facts):
                     rule.bad(key, "SparseTerm constructed outside SparseTerm::new (in %s)" % fn.name, fn.loc)
 
 
+# ---- R-CONCAT ----------------------------------------------------------------------------------------------
+
+def check_concat(res, facts):
+    """concat(polys) is the extension of the flat concatenation of the tables, zero-padded at the END to the next power
+    of two: inside the loop the buffer only grows by extend_from_slice of each table in order; a single resize to
+    next_power_of_two(sum of lengths) follows; num_vars = log2 of that size"""
+    rule = res.rule("R-CONCAT", "dense concat: tables appended in order, one zero padding at the end to next_power_of_two(total), num_vars = log2(size)", 1)
+    fs = [f for f in facts.fns(unit="ws", crate="ark_poly") if f.kind != "Closure" and f.name == "concat" and f.self_head == DENSE]
+    key = "ark_poly|DenseMultilinearExtension::concat"
+    if not fs:
+        rule.bad(key, "anchor missing")
+        return
+    f = fs[0]
+    loops = DF.sccs(f)
+    inloop = set().union(*loops) if loops else set()
+    problems = []
+    muts_in = sorted({t["f"].get("name") for bb, t in f.calls() if bb in inloop and t["f"].get("name") in ("resize", "push", "extend", "extend_from_slice", "insert", "truncate", "resize_with", "append", "extend_from_within")})
+    if muts_in != ["extend_from_slice"]:
+        problems.append("inside the loop the buffer is modified by %s; only extend_from_slice of each table keeps the flat concatenation (padding between tables moves later tables to wrong indices)" % muts_in)
+    resizes = [(bb, t) for bb, t in f.calls() if t["f"].get("name") == "resize"]
+    if len(resizes) != 1 or resizes[0][0] in inloop:
+        problems.append("expected exactly one zero padding after the loop")
+    else:
+        sz = E(f, resizes[0][1]["args"][1])
+        pad = E(f, resizes[0][1]["args"][2])
+        len_in_closure = any(t2["f"].get("name") == "len" for b2, t2 in f.calls() if False) or any(
+            any(ct["f"].get("name") == "len" for _, ct in c_.calls())
+            for _, t2 in f.calls() if t2["f"].get("name") == "map" for cid in closure_args(f, t2) for c_ in [facts.get(cid, f.unit)] if c_ is not None)
+        if not (isinstance(sz, tuple) and sz[0] == "call" and sz[1] == "next_power_of_two" and "sum(map(" in show(sz) and len_in_closure) or pad != 0:
+            problems.append("padding is resize(%s, %s), expected resize(next_power_of_two(sum of table lengths), 0)" % (show(sz)[:100], show(pad)))
+        outs = [t for _, t in f.calls() if t["f"].get("name") in ("from_evaluations_slice", "from_evaluations_vec")]
+        if len(outs) != 1 or E(f, outs[0]["args"][0]) != C("log2", sz):
+            problems.append("num_vars is %s, expected log2 of the padded size" % [show(E(f, o["args"][0]))[:80] for o in outs])
+    (rule.bad if problems else rule.ok)(key, "; ".join(problems) if problems else "extend_from_slice per table, resize(next_power_of_two(total), 0), num_vars = log2", f.loc)
+
+
 def run(ctx, res):
     facts = ctx.facts(["ws", "shapes"])
     res.analysed = facts.stats()
@@ -790,6 +826,7 @@ def run(ctx, res):
     check_guard(res, facts)
     check_lazy(res, facts)
     check_canon(res, facts)
+    check_concat(res, facts)
     return {
         "level": "other",
         "explanation": "Expression reconstruction over MIR compared as polynomials (folding kernels of dense/sparse fix_variables and the eq-table), a proof of swap_bits for all 64-bit inputs and admissible windows by abstract interpretation in the GF(2)-affine bit-vector domain, symbolic evaluation of element-wise operator closures, delegation shapes of the derived operators, shape guards (including dense/sparse agreement on relabel windows), an effect rule on lazy iterator adaptors, and constructor typestate of the multivariate sparse polynomial. That iterating the kernels over all rounds equals the hypercube sum for every table size, and hash-map based accumulation order, are NOT decided.",
